@@ -6,15 +6,18 @@
                 was left: None = at "break" / end of input, Some val_sz = through
                 "goto unknown_field" out of the Length/data pairing (the token after a Length
                 field, read with extract_element_fixed_width(val_sz), has an unknown tag).
-                (SdecProofs.sdec_erase: forgetting that component gives dec_loop false.)
+                (PermProofs.sdec_erase: forgetting that component gives dec_loop false.)
    tail_unk   = from an offset on, every token extract_element finds has a tag that is not in
                 the trait table (fast_atoi<unsigned short> of the tag, as decode computes it),
                 up to the first failing extraction or the end of the string.
    c05_hyp    = for header, body and trailer in turn: the strict decoder stops somewhere, and
                 from there on (in the way the permissive decoder continues) the part sees only
-                unknown tags.  For a conforming message with inserted unknown tokens this is:
+                unknown tags.  It holds for a conforming message with unknown tokens inserted when
                 every inserted token sits after the last known token of the message and no
-                inserted tag is congruent modulo 65536 to a tag of header, body or trailer. *)
+                inserted tag is congruent modulo 65536 to a tag of header, body or trailer (the
+                suite compares that claim with c05_hyp on every such case); it speaks about ONE
+                byte string, so it can also hold elsewhere, e.g. when both decoders lose the
+                rest of a repeating group. *)
 From Coq Require Import NArith ZArith List Bool.
 From F8 Require Import Codec.Bytes Codec.Meta Codec.Extract Codec.Decode Codec.Encode.
 Import ListNotations.
